@@ -144,11 +144,13 @@ impl RefSubject {
             SubjectAct::Ack(e, mid) => self.acknowledge(*e, *mid),
         }
     }
-    /// Canonical form used for state identity: the sequence counters are dropped.
+    /// Canonical form used for state identity: the sequence counters and observer-less entries are dropped.
     pub fn canonical(mut self) -> RefSubject {
         for r in self.resources.values_mut() {
             r.sequence = 0;
         }
+        // an entry whose observers all left is not part of the canonical state (same rule as the real-code search)
+        self.resources.retain(|_, r| !r.observers.is_empty());
         self
     }
 }
